@@ -266,6 +266,29 @@ def _exc_info(e):
     return {"type": type(e).__name__, "msg": str(e)[:200], "where": ["%s:%d" % (os.path.basename(t.filename), t.lineno) for t in tb][-4:]}
 
 
+class TwinListener(Listener):
+    """Two distinct listener objects that compare EQUAL (value semantics, as a dataclass would have): each is a listener of its own and
+    each must be told everything."""
+
+    def __init__(self):
+        self.counts = {"before": 0, "enditer": 0, "stop": 0}
+
+    def __eq__(self, other):
+        return isinstance(other, TwinListener)
+
+    def __hash__(self):
+        return 17
+
+    def BeforeMethodStart(self, method):
+        self.counts["before"] += 1
+
+    def OnEndIteration(self, savedNewPoints, solution):
+        self.counts["enditer"] += 1
+
+    def OnMethodStop(self, searchData, solution, status):
+        self.counts["stop"] += 1
+
+
 class SolverRun:
     """One solver instance driven through its public API, everything observable logged as events."""
 
@@ -317,6 +340,12 @@ class SolverRun:
         if scribble:
             self.rp.lowerBoundOfFloatVariables[:] = self.rp.lowerBoundOfFloatVariables * 3.0 + 17.0
             self.rp.upperBoundOfFloatVariables[:] = self.rp.upperBoundOfFloatVariables * 3.0 + 29.0
+        # every fourth run with a recording listener also carries two listeners that compare equal
+        self.twins = []
+        if listener == "rec" and self.tid % 4 == 1:
+            self.twins = [TwinListener(), TwinListener()]
+            for t in self.twins:
+                self.solver.AddListener(t)
         self.emit({"ev": "init", "n": self.n, "m": int(m), "lo": qv(self.lo0),
                    "up": qv(self.up0), "r": q(float(r)), "eps": q(float(eps)),
                    "limit": int(limit), "refine": bool(refine), "tag": tag, "cbs": self.cbs, "probing": bool(probing),
@@ -406,10 +435,17 @@ class SolverRun:
         objs = snap.pop("_objs", None)
         self.flush_trials(objs)
         sol = self.solver.GetResults()
-        e = {"ev": "ret", "name": name, "snap": snap, "sol": snapshot_solution(sol, objs), "ncalc": len(self.rp.log), "kept_ok": self.kept_ok()}
+        e = {"ev": "ret", "name": name, "snap": snap, "sol": snapshot_solution(sol, objs), "ncalc": len(self.rp.log), "kept_ok": self.kept_ok() and self.twins_ok()}
         e.update(extra)
         self.emit(e)
         return sol
+
+    def twins_ok(self):
+        """both listeners that compare equal were told the same, and something once the search has begun"""
+        if not self.twins:
+            return True
+        a, b = self.twins[0].counts, self.twins[1].counts
+        return a == b and (a["before"] == 1 or len(self.rp.log) == 0)
 
     def kept_ok(self):
         """the lists handed to OnEndIteration so far, read again: each still holds exactly the trials of its own call"""
